@@ -210,7 +210,7 @@ def cmd_check(prop, tier, nruns=None, survey=False):
     # probes that must fire in a tier
     need = info.get('must_fire', {}).get(tier, [])
     missing = [k for k in need if stats.get(k, 0) == 0]
-    if missing and exit_code == engine.EXIT_OK and done >= n:
+    if missing and exit_code == engine.EXIT_OK and done >= n and not os.environ.get('VERIF_RUNS'):
         _print(f'HARNESS-ERROR probes never fired in tier {tier}: {missing}')
         exit_code = engine.EXIT_HARNESS
 
